@@ -188,7 +188,9 @@ func (fa *FakeAuth) serve(w http.ResponseWriter, r *http.Request) {
 		// the success status with a body that is not the promised document: markup, nothing, a document cut short, JSON of
 		// another shape
 		bodies := []string{"<html>this is not json", "", `{"access_token":"at-cut","expires_in":36`, `{"email":"user@allowed.test","groups":["eng"`,
-			"null", `[]`, `"ok"`, `{"access_token":5,"expires_in":"soon","groups":"eng","email":7}`}
+			`[]`, `"ok"`, `{"access_token":5,"expires_in":"soon","groups":"eng","email":7}`}
+		// (not the bare word null: Go decodes it into any document without complaint, and whether a success status
+		// with that body counts as an answer is not something the statements settle)
 		k := int(atomic.AddInt64(&fa.nbad, 1))
 		w.WriteHeader(success)
 		w.Write([]byte(bodies[k%len(bodies)]))
